@@ -162,8 +162,8 @@ def run_case(spec):
     return res
 
 
-KINDS = ['incr', 'decr', 'setnp', 'restart', 'reload', 'reloadseq', 'reloadterm', 'extkill', 'extkill', 'selfexit',
-         'check', 'check', 'advance', 'dieat']
+KINDS = ['incr', 'incr', 'decr', 'setnp', 'restart', 'reload', 'reloadseq', 'reloadterm', 'extkill', 'extkill', 'selfexit',
+         'check', 'check', 'advance', 'dieat', 'kill', 'kill']
 
 
 def gen_sim(rnd):
@@ -212,10 +212,9 @@ def _sim(w, h, res):
         if w.stalled is not None:
             break
         yield r.do(i, st)
-        if st[0] in ('check', 'adv'):
-            ok = yield w.settle(60)
-            if ok is not None and w.stalled is None and w.arb._exclusive_running_command is None:
-                uniq('after step %d %s' % (i, st))
+        # unique "through any history": also while a (non-exclusive) kill is in its grace period
+        if w.stalled is None:
+            uniq('after step %d %s' % (i, st))
     if w.stalled is None:
         ok = yield quiesce(w)
         if ok:
